@@ -2,7 +2,7 @@
    Full-strength statement: C15 (see DESIGN.md section 7) (Cluster/Statements.v). Proved so far: the theorems below; what is
    not yet proved is decided on every run by the lock-step co-simulation (model = implementation on every
    explored schedule) together with the monitors run on the implementation's own observations. *)
-From RaftV Require Import Cluster.Statements Proofs.RVSpec Proofs.AESpec.
+From RaftV Require Import Cluster.Statements Proofs.RVSpec Proofs.AESpec Proofs.LiveSpec.
 Open Scope N_scope.
 
 (* becomeFollower (every term change, every step-down) never touches the commit index, the applied index, the
@@ -10,3 +10,29 @@ Open Scope N_scope.
 Theorem C15_step_down_frame : forall now n l t, vol (become_follower now n l t) = vol n.
 Proof. exact vol_become_follower. Qed.
 Print Assumptions C15_step_down_frame.
+
+(* Progress steps (node level, every state and request).  Log repair: the hint of a rejected AppendEntries request is at
+   most the request's previous index, or is the index right after the follower's snapshot boundary. *)
+Theorem C15_reject_hint_moves_towards_agreement : forall now n q h,
+  ae_hint (snd (h_append_entries now n q)) = Some h ->
+  ae_term q < n_term n \/ h <= ae_prev_index q \/ (ae_prev_index q < h /\ h = n_lii n + 1).
+Proof. exact ae_reject_hint. Qed.
+Print Assumptions C15_reject_hint_moves_towards_agreement.
+
+(* Snapshot transfer: a follower that already covers the offered snapshot acknowledges every chunk (fix D13) ... *)
+Theorem C15_covered_snapshot_chunk_is_acknowledged : forall now n q,
+  role_eqb (n_role n) Shutdown = false -> n_term n <= is_term q ->
+  is_lii q <= n_lii n \/ is_lii q <= n_applied n ->
+  exists t, snd (h_install_snapshot now n q) =
+            Some {| isr_term := t; isr_written := is_offset q + N.of_nat (length (is_bytes q)) |}.
+Proof. exact is_covered_chunk_is_acknowledged. Qed.
+Print Assumptions C15_covered_snapshot_chunk_is_acknowledged.
+
+(* ... and the leader whose final chunk is acknowledged finishes the transfer: nextIndex = boundary + 1. *)
+Theorem C15_acknowledged_final_chunk_finishes_the_transfer : forall now n peer q p s o,
+  f_snap (get_follower n peer) = Some (s, o) ->
+  isr_term p <= n_term n -> isr_written p = is_offset q -> is_done q = true ->
+  get_follower (l_is_reply now n peer (f_gen (get_follower n peer)) q (Some p)) peer =
+  {| f_next := is_lii q + 1; f_match := is_lii q; f_snap := None; f_gen := f_gen (get_follower n peer) |}.
+Proof. exact is_acknowledged_final_chunk_finishes. Qed.
+Print Assumptions C15_acknowledged_final_chunk_finishes_the_transfer.
